@@ -10,14 +10,23 @@ RULE = ("cases = (validator, Python value) over the value grammar {None, bool, i
         "every validator and every constructor argument; nn_distances patterns over {valid, NaN, +inf, -inf, 0, -0, negative} "
         "(all assignments for n <= 3, sampled for n <= 20); ensure_2d shapes; predictor calls over query containers x "
         "feature counts x normalize flags; Cholesky refusal on definite / indefinite kernels; fits of the 4 estimators on "
-        "dirty data sets.  distinct = distinct (op, canonical input); non-trivial = the input reaches a branch other than "
-        "'None and optional' / the clean default")
+        "dirty data sets (duplicates some / one / few / many / all for every estimator incl. the DimensionalityEstimator and the "
+        "time-sensitive one with normalize_per_time_point in {True, list, dict, NumPy bool}; d_method='fractal'; 1-D cell states "
+        "for all four estimators and the time-aware predictor methods; NaN / inf cells and time points with the intermediates "
+        "nn_distances / landmarks / d / ls / ls_time supplied by the caller); NaN / +-inf (scalars, 0-d arrays, per-cell vectors) "
+        "for every float constructor parameter of the four estimators followed by a fit (op ctorfit); the normalisation target "
+        "over {None, bool, NumPy / JAX bool scalars, other scalars, str, dict, sized containers} (op norm); k-NN distance "
+        "matrices over the nn patterns (op dist); k over the value menu.  distinct = distinct (op, canonical input); "
+        "non-trivial = the input reaches a branch other than 'None and optional' / the clean default")
 PARTIAL = [
     "'no accepted input yields NaN/inf fitted values or NaN predictions at finite query points' end to end is a float-range "
     "statement (exp overflow, ill-conditioned Cholesky, optimiser): covered by the dirty-data fits as tests only",
     "covariance-function constructor arguments (cov_func_curry, cov_func) stay at valid defaults (they belong to C05/C19)",
     "1-D input: DensityEstimator / FunctionEstimator / DimensionalityEstimator treat it as one feature (tested, metamorphic); "
-    "bitwise equal to the (n,1) form; TimeSensitiveDensityEstimator refuses it with ValueError",
+    "bitwise equal to the (n,1) form; TimeSensitiveDensityEstimator and the time-aware predictors likewise when the time points "
+    "are given separately (fix A6 of hunt H3); without `times` a 1-D x stays refused with ValueError",
+    "finite queries of magnitude >= 1.34e154 give NaN predictions with Matern kernels (squared distance overflows; known "
+    "finding C20:matern-overflow-nan-prediction, witness always run)",
 ]
 ASSUMPTIONS = [
     "CPython float(str) is taken as data: a str value is (text, result of float(text))",
@@ -39,6 +48,18 @@ SIG_DIM1D = "C20:dimensionality-1d-indexerror"
 SIG_TIME_EMPTY = "C20:time-empty-zerodivision"
 SIG_LR_INF = "C20:init_learn_rate-inf-nan"
 SIG_INTSCALAR = "C20:integer-scalar-not-kept"
+SIG_MATERN = "C20:matern-overflow-nan-prediction"
+# hunt H3 (reports/hunt/H3): one stable signature per repaired item
+SIG_A1 = "C20:float-inf-accepted"                   # validate_float let +-inf through (FunctionEstimator(mu=inf) -> NaN)
+SIG_A2 = "C20:foin-nan-accepted"                    # validate_float_or_iterable_numerical let NaN (and d=inf) through
+SIG_A3 = "C20:dimensionality-duplicates"            # DimensionalityEstimator never sanitised zero distances
+SIG_A4 = "C20:time-normalize-duplicates"            # _compute_ls with normalize_per_time_point used unvalidated distances
+SIG_A5 = "C20:fractal-1d-form"                      # compute_d_factal: x and x[:, None] gave different d
+SIG_A5N = "C20:fractal-duplicates"                  # NaN fractal dimension with several duplicated cells
+SIG_A6 = "C20:time-1d-refused"                      # time-aware estimator / predictors refused 1-D cell states
+SIG_B3 = "C20:normalize-flag-internal"              # normalize_per_time_point=np.bool_(True) -> IndexError at fit
+SIG_B3K = "C20:k-zero-internal"                     # DimensionalityEstimator(k=0) -> IndexError at fit
+SIG_SUPPLIED = "C20:nonfinite-cell-supplied-intermediates"   # NaN / inf cell accepted when nn_distances, landmarks, d are given
 
 # ------------------------------------------------------------------ value grammar
 # spec := ["N"] | ["B", bool] | ["I", "decimal"] | ["F", bits] | ["NPF", bits] | ["S", text]
@@ -47,6 +68,7 @@ SIG_INTSCALAR = "C20:integer-scalar-not-kept"
 #       | ["A", "np"|"jax", [shape], [bits...], dtype]   any other array (never 0-d with an integer dtype: use A0I)
 #       | ["SP", r, c, [bits...]] | ["L", [spec...]] | ["T", [spec...]]
 #       | ["E", value] | ["O"]
+#       | ["NPB", bool]  NumPy boolean scalar | ["D", [[key spec, value spec], ...]]  dict      (both: build() only, never sent to the driver)
 
 
 def fb(x):
@@ -129,6 +151,10 @@ def build(spec):
         return mellon().util.GaussianProcessType(spec[1])
     if k == "O":
         return object()
+    if k == "NPB":
+        return np.bool_(bool(spec[1]))
+    if k == "D":
+        return {build(a): build(b) for a, b in spec[1]}
     raise ValueError(spec)
 
 
@@ -305,8 +331,9 @@ SCALAR_OPS = [
     ("positive_float?", "vpf T F", lambda V, v: V.validate_positive_float(v, "p", optional=True)),
     ("positive_float:inf", "vpf F T", lambda V, v: V.validate_positive_float(v, "p", allow_inf=True)),
     ("positive_float?:inf", "vpf T T", lambda V, v: V.validate_positive_float(v, "p", optional=True, allow_inf=True)),
-    ("float", "vfl F", lambda V, v: V.validate_float(v, "p")),
-    ("float?", "vfl T", lambda V, v: V.validate_float(v, "p", optional=True)),
+    ("float", "vfl F F", lambda V, v: V.validate_float(v, "p")),
+    ("float?", "vfl T F", lambda V, v: V.validate_float(v, "p", optional=True)),
+    ("float:inf", "vfl F T", lambda V, v: V.validate_float(v, "p", allow_inf=True)),
     ("positive_int", "vpi F", lambda V, v: V.validate_positive_int(v, "p")),
     ("positive_int?", "vpi T", lambda V, v: V.validate_positive_int(v, "p", optional=True)),
     ("bool", "vbool F", lambda V, v: V.validate_bool(v, "p")),
@@ -314,8 +341,10 @@ SCALAR_OPS = [
     ("string:optimizer", "vstr 3 %s %s %s" % (stoks("adam"), stoks("advi"), stoks("L-BFGS-B")),
      lambda V, v: V.validate_string(v, "p", choices={"adam", "advi", "L-BFGS-B"})),
     ("string:any", "vstr 0", lambda V, v: V.validate_string(v, "p")),
-    ("foin", "vfoin F F", lambda V, v: V.validate_float_or_iterable_numerical(v, "p")),
-    ("foin?+", "vfoin T T", lambda V, v: V.validate_float_or_iterable_numerical(v, "p", optional=True, positive=True)),
+    ("foin", "vfoin F F F", lambda V, v: V.validate_float_or_iterable_numerical(v, "p")),
+    ("foin?+", "vfoin T T F", lambda V, v: V.validate_float_or_iterable_numerical(v, "p", optional=True, positive=True)),
+    ("foin+:inf", "vfoin F T T", lambda V, v: V.validate_float_or_iterable_numerical(v, "p", positive=True, allow_inf=True)),
+    ("k", "vk", lambda V, v: mellon().DimensionalityEstimator(k=v).k),
     ("array", "varr F N", lambda V, v: V.validate_array(v, "p")),
     ("array?", "varr T N", lambda V, v: V.validate_array(v, "p", optional=True)),
     ("array:nd2", "varr F Y 1 2", lambda V, v: V.validate_array(v, "p", ndim=2)),
@@ -355,12 +384,27 @@ def is_big_int(spec, bound=2 ** 63):
 
 def expected_refusal(name, spec):
     """Independent table of the refusals the property spells out (None = no claim)."""
-    base = name.rstrip("?+").split(":")[0]
+    base = name.split(":")[0].rstrip("?+")
     if name.startswith("positive_float"):
         base = "positive_float"
     optional = "?" in name
     k = spec[0]
     x = spec_float(spec)
+    if base == "k":
+        # DimensionalityEstimator(k=...): an int >= 1 (True is the int 1); everything else ValueError
+        if k == "B":
+            return "ok" if spec[1] else "ValueError"
+        if k == "I":
+            return "ok" if int(spec[1]) >= 1 else "ValueError"
+        return "ValueError"
+    if base in ("float", "foin") and k in ("F", "NPF") and x is not None and not name.endswith(":inf") and math.isinf(x):
+        return "ValueError"      # hunt H3 A1 / A2: an infinite value where a finite number is required
+    if base == "foin" and k in ("F", "NPF") and x is not None and x != x:
+        return "ValueError"      # hunt H3 A2: NaN
+    if base == "foin" and k == "A" and not is_int_dtype(spec[4]):
+        vals = np.array(spec[3], dtype=np.uint64).view(np.float64)
+        if np.any(np.isnan(vals)) or (not name.endswith(":inf") and np.any(np.isinf(vals))):
+            return "ValueError"
     if k == "N":
         if optional or base == "gp_type":
             return "ok"
@@ -392,6 +436,8 @@ def expected_refusal(name, spec):
         except ValueError:
             return "ValueError"
         if v != v or (base == "positive_float" and not (v > 0 and (inf_ok or v != float("inf")))):
+            return "ValueError"
+        if base == "float" and math.isinf(v) and not inf_ok:
             return "ValueError"
         return "ok"
     # NumPy / JAX integer scalars: an integer for validate_float_or_int (int64 range as for a Python int), a number
@@ -438,11 +484,21 @@ def expected_refusal(name, spec):
 def post_ok(name, spec, r):
     """Independent postcondition of an accepted value; returns a message or None."""
     import jax
-    base = name.rstrip("?+").split(":")[0]
+    base = name.split(":")[0].rstrip("?+")
     if name.startswith("positive_float"):
         base = "positive_float"
     if r is None:
         return None if (spec[0] == "N") else "returned None for a non-None input"
+    if base == "k":
+        return None if (isinstance(r, int) and r >= 1) else f"accepted k={r!r} is not an int >= 1"
+    if base == "float" and not name.endswith(":inf") and isinstance(r, float) and math.isinf(r):
+        return "accepted value is infinite although a finite float is required"
+    if base == "foin":
+        a = np.asarray(r, dtype=float)
+        if np.any(np.isnan(a)):
+            return "accepted value has NaN entries"
+        if not name.endswith(":inf") and np.any(np.isinf(a)):
+            return "accepted value has infinite entries although allow_inf=False"
     if base == "positive_float":
         if not (isinstance(r, float) and r > 0):
             return f"accepted value {r!r} is not a positive float"
@@ -515,11 +571,17 @@ def case_scalar(ctx, res, p):
     exp = expected_refusal(name, spec)
     if exp is not None and not cls.startswith("Internal") and cls != exp:
         res.oracle_fail(f"{name}: expected {exp}, implementation gave {cls}", p, detail={"value": spec},
-                        signature=f"C20:refusal-table:{name}")
+                        signature=SIG_B3K if name == "k" else f"C20:refusal-table:{name}")
     if cls == "ok":
         msg = post_ok(name, spec, r)
         if msg:
             sig = SIG_INTSCALAR if (msg.startswith("integer input") and spec[0] in ("NI", "A0I")) else f"C20:postcondition:{name}"
+            if "infinite although a finite float" in msg:
+                sig = SIG_A1
+            if "NaN entries" in msg or "infinite entries" in msg:
+                sig = SIG_A2
+            if name == "k":
+                sig = SIG_B3K
             res.oracle_fail(f"{name}: {msg}", p, detail={"value": spec}, signature=sig)
     # --- correspondence
     if ctx["driver"] is not None:
@@ -696,7 +758,10 @@ def case_predict(ctx, res, p):
             out = np.asarray(r, dtype=float)
             finite_q = bool(np.all(np.isfinite(np.asarray(build(xs).todense() if xs[0] == "SP" else build(xs), dtype=float))))
             if finite_q and not np.all(np.isfinite(out)):
-                res.oracle_fail("NaN/inf prediction at finite query points", p, signature="C20:nan-prediction")
+                qmax = float(np.max(np.abs(np.asarray(build(xs).todense() if xs[0] == "SP" else build(xs), dtype=float)))) if s2[0] else 0.0
+                huge = qmax >= 1.3e154         # the squared distance overflows: inf * 0 in the Matern profile (hunt H3, B2)
+                res.oracle_fail("NaN/inf prediction at finite query points" + (" of magnitude >= 1.34e154 (Matern kernel)" if huge else ""),
+                                p, detail={"max_abs_query": qmax}, signature=SIG_MATERN if huge else "C20:nan-prediction")
             if out.shape[0] != s2[0]:
                 res.oracle_fail("prediction has the wrong number of rows", p, signature="C20:predict-rows")
         if s2[1] == f and len(s2) == 2 and cls != "ok" and (method != "mean" or ns == ["B", False] or ns == ["B", True]):
@@ -844,6 +909,10 @@ def case_ctor(ctx, res, p):
         for k in ("mu", "rank"):
             if g[k] is not None and (not isinstance(g[k], (int, float)) or g[k] != g[k]):
                 bad.append(f"{k}={g[k]!r} is NaN or not a number")
+        if isinstance(g["mu"], float) and math.isinf(g["mu"]):
+            bad.append(f"mu={g['mu']!r} is infinite")
+        if g["d"] is not None and not np.all(np.isfinite(np.asarray(g["d"], dtype=float))):
+            bad.append(f"d={np.asarray(g['d']).ravel()[:4]!r} has NaN or infinite entries")
         ri = int_of_spec(args["rank"])
         if ri is not None and not (type(g["rank"]) is int and g["rank"] == ri):
             bad.append(f"rank={g['rank']!r} ({type(g['rank']).__name__}) is not the integer {ri} that was given "
@@ -870,6 +939,10 @@ def case_ctor(ctx, res, p):
             sig = "C20:ctor-postcondition:" + bad[0].split("=")[0].split(" ")[-1]
             if bad[0].startswith("rank=") and "is not the integer" in bad[0] and args["rank"][0] in ("NI", "A0I"):
                 sig = SIG_INTSCALAR
+            if bad[0].startswith("mu=") and "infinite" in bad[0]:
+                sig = SIG_A1
+            if bad[0].startswith("d=") and "NaN or infinite" in bad[0]:
+                sig = SIG_A2
             res.oracle_fail("constructor accepted an invalid argument: " + "; ".join(bad), p, signature=sig)
     # the refusals the property spells out, one dirty argument at a time
     if len(dirty) == 1 and not cls.startswith("Internal"):
@@ -877,7 +950,7 @@ def case_ctor(ctx, res, p):
         vname = {"jitter": "positive_float", "ls_factor": "positive_float:inf", "init_learn_rate": "positive_float",
                  "ls": "positive_float?:inf", "rank": "float_or_int?", "mu": "float?", "n_landmarks": "positive_int?",
                  "n_iter": "positive_int", "predictor_with_uncertainty": "bool", "jit": "bool", "check_rank": "bool?",
-                 "optimizer": "string:optimizer", "gp_type": "gp_type"}.get(k)
+                 "optimizer": "string:optimizer", "gp_type": "gp_type", "d": "foin?+"}.get(k)
         exp = expected_refusal(vname, args[k]) if vname else None
         if k == "d_method":
             exp = "TypeError" if args[k][0] != "S" else ("ok" if args[k][1] in ("fractal", "embedding") else "ValueError")
@@ -918,6 +991,11 @@ def make_data(kind, n, seed):
         return base
     if kind == "dup_some":
         return dups(max(1, n // 10))
+    if kind == "dup_one":            # ONE duplicated cell (hunt H3 A3 / A4)
+        X = base.copy(); X[1] = X[0]
+        return X
+    if kind == "dup_few":            # several duplicates of one cell (>= 3 made compute_d_factal NaN)
+        return dups(4)
     if kind == "dup_many":
         return dups(n - 3)
     if kind == "dup_block":          # adjacent duplicates: the same time point for the time-sensitive estimator
@@ -963,13 +1041,16 @@ def make_data(kind, n, seed):
     if kind == "inf_cell":
         X = base.copy(); X[3, 1] = np.inf
         return X
+    if kind in ("nan_time", "inf_time"):      # clean cells; the time point of cell 3 is NaN / inf (see fit_once)
+        return base
     raise ValueError(kind)
 
 
 # data kinds whose fitted values must be bitwise those of a reference kind (same seed)
 SAME_AS = {"list": "clean", "sparse": "clean", "sparse_array": "clean", "jax": "clean", "1d": "col", "list1d": "col",
            "int": "float_of_int"}
-MUST_REFUSE = {"dup_pairs", "dup_all", "const_all", "empty", "nan_cell", "inf_cell"}
+MUST_REFUSE = {"dup_pairs", "dup_all", "const_all", "empty", "nan_cell", "inf_cell", "nan_time", "inf_time"}
+MUST_FIT = {"clean", "dup_some", "dup_one", "dup_few", "dup_block", "const_col", "list", "sparse", "sparse_array", "jax", "f32", "col"}
 _FITCACHE = {}
 
 
@@ -979,7 +1060,7 @@ def dense_of(X):
     return np.asarray(X, dtype=float)
 
 
-def fit_once(est_name, kind, n, seed, extra):
+def fit_once(est_name, kind, n, seed, extra, supplied=False):
     m = mellon()
     X = make_data(kind, n, seed)
     rng = np.random.default_rng(seed + 7)
@@ -987,6 +1068,20 @@ def fit_once(est_name, kind, n, seed, extra):
     y = np.sin(np.arange(n) / 3.0)
     if kind == "empty":
         times, y = times[:0], y[:0]
+    if kind == "nan_time":
+        times[3] = np.nan
+    if kind == "inf_time":
+        times[3] = np.inf
+    if supplied:
+        # every intermediate that would look at the cells is handed in by the caller (nn_distances, landmarks, d, ls, ls_time):
+        # nothing but an explicit check (or the Ridge initial guess) can then notice a non-finite cell / time point
+        clean = make_data("clean", n, seed)
+        extra = dict(extra)
+        extra.update(nn_distances=np.full(n, 0.3), d=2.0, ls=1.5)
+        lm = clean[: n // 2 : 2].copy()
+        if est_name == "time":
+            lm = np.c_[lm, np.repeat(np.arange(2.0), [len(lm) // 2, len(lm) - len(lm) // 2])]
+        extra.update(landmarks=lm)
     if est_name == "density":
         est = m.DensityEstimator(**extra)
         fitted = est.fit_predict(X)
@@ -1013,19 +1108,45 @@ def fit_once(est_name, kind, n, seed, extra):
     return np.asarray(fitted, float), pred, (None if nn is None else np.asarray(nn, float))
 
 
+def fit_signature(est_name, kind, extra, what):
+    """Stable signatures of the defects of hunt H3 (one per repaired item), else a generic one."""
+    ex = extra or {}
+    dup = kind.startswith("dup_")
+    if ex.get("d_method") == ["S", "fractal"]:
+        if dup:
+            return SIG_A5N
+        if kind in ("1d", "list1d", "col"):
+            return SIG_A5
+    if est_name == "dimensionality" and dup:
+        return SIG_A3
+    if est_name == "time" and dup and ex.get("normalize_per_time_point", ["B", False]) != ["B", False]:
+        return SIG_A4
+    if est_name == "time" and kind in ("1d", "list1d"):
+        return SIG_A6
+    if "normalize_per_time_point" in ex and ex["normalize_per_time_point"][0] in ("NPB", "NPF", "NI", "A", "A0I", "I", "F", "S", "O"):
+        return SIG_B3
+    return f"C20:{what}:{est_name}:{kind}"
+
+
 def case_fit(ctx, res, p):
     est_name, kind, n, seed = p["estimator"], p["data"], int(p["n"]), int(p["seed"])
-    extra = {k: build(v) for k, v in p.get("extra", {}).items()}
-    cls, out, e = impl_outcome(lambda: fit_once(est_name, kind, n, seed, extra))
-    res.case(("fit", est_name, kind, n, seed, repr(p.get("extra"))), kind != "clean",
-             {"op": "fit", "estimator": est_name, "data": kind, "n": n, "impl": cls})
+    xspec = p.get("extra", {})
+    supplied = bool(p.get("supplied", False))
+    extra = {k: build(v) for k, v in xspec.items()}
+    cls, out, e = impl_outcome(lambda: fit_once(est_name, kind, n, seed, extra, supplied))
+    res.case(("fit", est_name, kind, n, seed, repr(xspec), supplied), kind != "clean" or bool(xspec),
+             {"op": "fit", "estimator": est_name, "data": kind, "n": n, "extra": sorted(xspec), "supplied": supplied, "impl": cls})
     res.count("fit:" + est_name)
     res.count("fit:data=" + kind)
     res.count("fit:outcome=" + cls.split(":")[0])
+    if supplied:
+        res.count("fit:supplied-intermediates")
+    for k in xspec:
+        res.count("fit:extra=" + k)
     if p.get("expect") and cls == p["expect"]:
         return      # regression case: the (repaired) refusal the witness now has to meet
     if cls.startswith("Internal"):
-        sig = f"C20:fit-internal:{est_name}:{kind}:{type(e).__name__}"
+        sig = fit_signature(est_name, kind, xspec, f"fit-internal:{type(e).__name__}")
         if est_name == "dimensionality" and kind in ("1d", "list1d") and isinstance(e, IndexError):
             sig = SIG_DIM1D
         if est_name == "time" and kind == "empty" and isinstance(e, ZeroDivisionError):
@@ -1034,31 +1155,35 @@ def case_fit(ctx, res, p):
                         p, detail={"error": str(e)[:200]}, signature=sig)
         return
     if cls != "ok":
-        if kind in ("clean", "dup_some", "dup_block", "const_col", "list", "sparse", "sparse_array", "jax", "f32", "col") \
-                and not (est_name == "dimensionality" and kind in ("dup_some", "dup_block", "dup_pairs")):
+        if kind in MUST_FIT and not p.get("may_refuse"):
+            # duplicates of some cells must be sanitised (a valid distance exists), containers / dtypes must be accepted
             res.oracle_fail(f"{est_name} estimator refused '{kind}' data ({cls}: {str(e)[:80]})", p,
-                            signature=f"C20:fit-refused:{est_name}:{kind}")
-        if kind in ("1d", "list1d") and est_name in ("density", "function", "dimensionality"):
-            res.oracle_fail(f"{est_name} estimator refused one-dimensional input ({cls})", p,
-                            signature=f"C20:fit-1d-refused:{est_name}")
+                            detail={"extra": sorted(xspec)}, signature=fit_signature(est_name, kind, xspec, "fit-refused"))
+        if kind in ("1d", "list1d"):
+            res.oracle_fail(f"{est_name} estimator refused one-dimensional input ({cls}: {str(e)[:80]})", p,
+                            signature=SIG_A6 if est_name == "time" else f"C20:fit-1d-refused:{est_name}")
         return
     fitted, pred, nn = out
-    if kind in MUST_REFUSE and not (est_name == "dimensionality" and kind == "dup_pairs"):
+    if kind in MUST_REFUSE and not supplied and not (est_name == "dimensionality" and kind == "dup_pairs"):
+        # (the k-NN matrix of the DimensionalityEstimator has valid entries for paired duplicates: columns 2..k)
         res.oracle_fail(f"{est_name} estimator accepted '{kind}' data (no valid distance / non-finite cell)", p,
                         detail={"fitted_finite": bool(np.all(np.isfinite(fitted)))}, signature=f"C20:fit-accepted:{kind}")
     if not np.all(np.isfinite(fitted)):
-        sig = f"C20:fit-nonfinite:{est_name}:{kind}"
-        if p.get("extra", {}).get("init_learn_rate") == F(float("inf")):
+        sig = fit_signature(est_name, kind, xspec, "fit-nonfinite")
+        if xspec.get("init_learn_rate") == F(float("inf")):
             sig = SIG_LR_INF
-        res.oracle_fail(f"{est_name} estimator on '{kind}' data: NaN/inf fitted values", p, signature=sig)
+        if supplied:
+            sig = SIG_SUPPLIED
+        res.oracle_fail(f"{est_name} estimator on '{kind}' data: NaN/inf fitted values"
+                        + (" (nn_distances, landmarks, d, ls supplied by the caller)" if supplied else ""), p, signature=sig)
     elif not np.all(np.isfinite(pred)):
         res.oracle_fail(f"{est_name} estimator on '{kind}' data: NaN/inf predictions at finite query points", p,
-                        signature=f"C20:fit-nan-prediction:{est_name}:{kind}")
-    if nn is not None and est_name != "dimensionality" and not np.all(np.isfinite(nn) & (nn > 0)):
+                        signature=SIG_SUPPLIED if supplied else fit_signature(est_name, kind, xspec, "fit-nan-prediction"))
+    if nn is not None and not np.all(np.isfinite(nn) & (nn > 0)):
         res.oracle_fail("stored nn_distances are not all finite and positive after fit", p,
-                        signature=f"C20:fit-nn:{est_name}")
+                        signature=SIG_A3 if est_name == "dimensionality" else f"C20:fit-nn:{est_name}")
     # sanitation of the computed distances against the model
-    if nn is not None and est_name in ("density", "function") and ctx["driver"] is not None and not p.get("extra"):
+    if nn is not None and est_name in ("density", "function") and ctx["driver"] is not None and not xspec and not supplied:
         X = dense_of(make_data(kind, n, seed))
         X = X.reshape(len(X), -1) if X.ndim == 1 else X
         import jax.numpy as jnp
@@ -1067,19 +1192,269 @@ def case_fit(ctx, res, p):
         if o[0] != "ok" or unbits(o[3:]).tobytes() != nn.tobytes():
             res.corr_fail("nn_distances after fit differ from the model's sanitation of the raw distances", p)
         res.count("fit:nn-invalid=%d" % min(int(np.sum(~(np.isfinite(raw) & (raw > 0)))), 3))
-    # container / dtype / 1-D forms give the results of their dense float 2-D form
+    # container / dtype / 1-D forms give the results of their dense float 2-D form (same extra arguments)
     ref_kind = SAME_AS.get(kind)
-    if ref_kind and not p.get("extra"):
-        key = (est_name, ref_kind, n, seed)
+    if ref_kind and not supplied and "landmarks" not in xspec and "n_landmarks" not in xspec:
+        key = (est_name, ref_kind, n, seed, repr(sorted(xspec.items())))
         if key not in _FITCACHE:
-            _FITCACHE[key] = impl_outcome(lambda: fit_once(est_name, ref_kind, n, seed, {}))
+            _FITCACHE[key] = impl_outcome(lambda: fit_once(est_name, ref_kind, n, seed, extra))
         rcls, rout, _ = _FITCACHE[key]
         if rcls == "ok":
             dev = float(np.max(np.abs(rout[0] - fitted))) if rout[0].shape == fitted.shape else float("inf")
             res.dev("fit_container_vs_dense", dev)
             if rout[0].tobytes() != fitted.tobytes() or rout[1].tobytes() != pred.tobytes():
+                sig = f"C20:fit-form:{kind}"
+                if xspec.get("d_method") == ["S", "fractal"] and kind in ("1d", "list1d"):
+                    sig = SIG_A5
                 res.oracle_fail(f"'{kind}' data does not give the result of its dense 2-D float form '{ref_kind}'", p,
-                                detail={"max_abs_dev": dev}, signature=f"C20:fit-form:{kind}")
+                                detail={"max_abs_dev": dev, "extra": sorted(xspec)}, signature=sig)
+
+
+# ------------------------------------------------------------------ float constructor parameters followed by a fit
+
+# estimator -> (float parameters, extra arguments that bypass the heuristics which would refuse a bad value by accident)
+def _bypass(est_name, n):
+    z = A("np", np.zeros(n))
+    adam = {"optimizer": ["S", "adam"], "n_iter": ["I", "3"]}
+    if est_name == "density":
+        return dict(adam, mu=F(0.0), initial_value=z)
+    if est_name == "time":
+        return dict(adam, mu=F(0.0), initial_value=z)
+    if est_name == "dimensionality":
+        return dict(adam, ls=F(1.0), d=F(2.0), mu_dens=F(-5.0), initial_value=A("np", np.zeros((2, n))))
+    return {}
+
+
+FLOAT_PARAMS = {
+    "density": ["jitter", "mu", "ls", "ls_factor", "d", "init_learn_rate", "rank"],
+    "function": ["jitter", "mu", "ls", "ls_factor", "sigma"],
+    "time": ["jitter", "mu", "ls", "ls_factor", "d", "init_learn_rate", "ls_time", "ls_time_factor"],
+    "dimensionality": ["jitter", "mu_dim", "mu_dens", "ls", "ls_factor", "d", "init_learn_rate"],
+}
+PER_CELL = {"d", "sigma"}          # parameters that also take one value per cell
+INF_LEGAL = {"ls", "ls_factor", "ls_time", "ls_time_factor"}     # the constant-kernel limit: accepted, results finite
+
+
+def ctorfit_once(est_name, param, value, bypass, n, seed):
+    m = mellon()
+    X = make_data("clean", n, seed)
+    times = np.repeat(np.arange(2.0), [n // 2, n - n // 2])
+    y = np.sin(np.arange(n) / 3.0)
+    kw = {k: build(v) for k, v in (_bypass(est_name, n) if bypass else {}).items()}
+    if est_name == "time" and param != "ls_time":
+        kw.setdefault("ls_time", 1.0)
+    kw[param] = value
+    cls_ = {"density": m.DensityEstimator, "function": m.FunctionEstimator, "time": m.TimeSensitiveDensityEstimator,
+            "dimensionality": m.DimensionalityEstimator}[est_name]
+    est = cls_(**kw)
+    if est_name == "function":
+        fitted = est.fit_predict(X, y)
+        pred = est.predict(X[:3] + 0.1)
+    elif est_name == "time":
+        fitted = est.fit_predict(X, times)
+        pred = est.predict(X[:3] + 0.1, 0.5)
+    else:
+        fitted = est.fit_predict(X)
+        pred = est.predict(X[:3] + 0.1)
+    return np.asarray(fitted, float), np.asarray(pred, float)
+
+
+def case_ctorfit(ctx, res, p):
+    """A float constructor parameter of one of the four estimators set to NaN / +-inf (scalar, 0-d array, one entry of a per-cell
+    vector), then fit + predict on clean data: refused with ValueError / TypeError (at construction, fit or call time) or every
+    fitted value and prediction is finite."""
+    est_name, param, vspec, bypass = p["estimator"], p["param"], p["value"], bool(p.get("bypass", False))
+    n, seed = int(p.get("n", 20)), int(p.get("seed", 1))
+    cls, out, e = impl_outcome(lambda: ctorfit_once(est_name, param, build(vspec), bypass, n, seed))
+    res.case(("ctorfit", est_name, param, repr(vspec), bypass), True,
+             {"op": "ctorfit", "estimator": est_name, "param": param, "value": vspec if len(repr(vspec)) < 100 else "…", "impl": cls})
+    res.count("ctorfit:" + est_name)
+    res.count("ctorfit:param=" + param)
+    res.count("ctorfit:outcome=" + cls.split(":")[0])
+    if param in ("mu", "mu_dim", "mu_dens"):
+        sig = SIG_A1
+    elif param in ("d", "sigma"):
+        sig = SIG_A2
+    else:
+        sig = f"C20:ctorfit:{est_name}:{param}"
+    if cls.startswith("Internal"):
+        res.oracle_fail(f"{est_name} estimator with {param}={describe(vspec)} raised {type(e).__name__} instead of ValueError/TypeError",
+                        p, detail={"error": str(e)[:200]}, signature=f"C20:ctorfit-internal:{est_name}:{param}:{type(e).__name__}")
+        return
+    if cls != "ok":
+        if param in INF_LEGAL and vspec == F(float("inf")) and not bypass:
+            res.oracle_fail(f"{est_name} estimator refused {param}=inf (the constant-kernel limit is a legal length scale)", p,
+                            detail={"error": str(e)[:200]}, signature=f"C20:ctorfit-ls-inf-refused:{est_name}:{param}")
+        return
+    fitted, pred = out
+    if not (np.all(np.isfinite(fitted)) and np.all(np.isfinite(pred))):
+        res.oracle_fail(f"{est_name} estimator accepted {param}={describe(vspec)} and returned NaN/inf "
+                        f"{'fitted values' if not np.all(np.isfinite(fitted)) else 'predictions'}", p,
+                        detail={"bypass": bypass}, signature=sig)
+
+
+def describe(spec):
+    try:
+        v = build(spec)
+        return repr(v)[:40] if not hasattr(v, "shape") or np.ndim(v) == 0 else f"array{tuple(np.shape(v))} with {np.asarray(v).ravel()[0]!r}"
+    except Exception:
+        return repr(spec)[:40]
+
+
+# ------------------------------------------------------------------ the normalisation target (validate_normalize_per_time_point)
+
+def norm_token(spec):
+    """Class of a value for the model (`NormVal`), independent of the implementation."""
+    k = spec[0]
+    if k == "N":
+        return "N"
+    if k == "B":
+        return "B T" if spec[1] else "B F"
+    if k == "NPB":
+        return "NB T" if spec[1] else "NB F"
+    if k == "D":
+        return "D"
+    if k == "S":
+        return "S"
+    if k in ("L", "T"):
+        return f"Z {len(spec[1])}"
+    if k == "A":
+        if len(spec[2]) == 0:
+            v = np.array(spec[3], dtype=np.uint64).view(np.float64)[0]
+            return ("NB T" if v else "NB F") if spec[4] == "bool" else "X"
+        return f"Z {spec[2][0]}"
+    return "X"        # I, F, NPF, NI, A0I, O, E
+
+
+def case_norm(ctx, res, p):
+    m = mellon()
+    spec = p["value"]
+    obj = build(spec)
+    cls, est, e = impl_outcome(lambda: m.TimeSensitiveDensityEstimator(ls_time=1.0, normalize_per_time_point=obj))
+    tok = norm_token(spec)
+    res.case(("norm", repr(spec)), tok != "B F", {"op": "norm", "value": spec if len(repr(spec)) < 100 else "…", "impl": cls})
+    res.count("norm:class=" + tok.split()[0])
+    res.count("norm:outcome=" + cls.split(":")[0])
+    if cls.startswith("Internal"):
+        res.oracle_fail(f"TimeSensitiveDensityEstimator(normalize_per_time_point={describe(spec)}) raised {type(e).__name__}", p,
+                        signature=SIG_B3)
+        return
+    scalar_bad = tok in ("X", "S")
+    if scalar_bad and cls == "ok":
+        res.oracle_fail(f"normalize_per_time_point={describe(spec)} (a scalar that is no bool, or a str) is accepted at construction "
+                        "(fit then fails with IndexError / an accidental error)", p, signature=SIG_B3)
+    if not scalar_bad and cls != "ok":
+        res.oracle_fail(f"normalize_per_time_point={describe(spec)} refused at construction ({cls})", p,
+                        signature="C20:normalize-refused")
+    if cls == "ok":
+        got = est.normalize_per_time_point
+        if tok.startswith(("NB", "B")) and not (type(got) is bool and got == (tok.split()[1] == "T")):
+            res.oracle_fail(f"normalize_per_time_point={describe(spec)} is stored as {type(got).__name__} {got!r}, not as the Python bool", p,
+                            signature=SIG_B3)
+    if ctx["driver"] is not None:
+        out = ctx["driver"].ask("vnorm " + tok).split()
+        if out[0] != cls:
+            res.corr_fail(f"normalize_per_time_point: model {out[0]}, implementation {cls}", p, detail={"value": spec})
+        elif cls == "ok":
+            got = est.normalize_per_time_point
+            gtok = ("N" if got is None else ("B T" if got else "B F") if type(got) is bool else "D" if isinstance(got, dict)
+                    else f"Z {len(got)}" if hasattr(got, "__len__") else "X")
+            if " ".join(out[1:]) != gtok:
+                res.corr_fail("normalize_per_time_point: stored values differ", p, detail={"model": out[1:], "impl": gtok})
+
+
+# ------------------------------------------------------------------ the k-NN distance matrix of the DimensionalityEstimator
+
+def case_dist(ctx, res, p):
+    """`distances` (n, k) of the DimensionalityEstimator: sanitised as a whole like nn_distances (invalid -> smallest valid entry
+    of the matrix), refused when no entry is valid."""
+    m = mellon()
+    r_, c_ = int(p["rows"]), int(p["cols"])
+    a = np.array(p["bits"], dtype=np.uint64).view(np.float64).reshape(r_, c_)
+    cls, est, e = impl_outcome(lambda: m.DimensionalityEstimator(distances=a.copy()))
+    valid = np.isfinite(a) & (a > 0)
+    res.case(("dist", a.tobytes(), r_, c_), bool(np.any(~valid)), {"op": "dist", "shape": [r_, c_], "invalid": int(np.sum(~valid)), "impl": cls})
+    res.count("dist:" + ("all-invalid" if not valid.any() else "some-invalid" if not valid.all() else "clean"))
+    if cls.startswith("Internal"):
+        res.oracle_fail(f"DimensionalityEstimator(distances=...) raised {type(e).__name__}", p, signature="C20:dist-internal")
+        return
+    if not valid.any():
+        if cls != "ValueError":
+            res.oracle_fail(f"a distance matrix without a valid entry is not refused with ValueError (got {cls})", p, signature=SIG_A3)
+    elif cls != "ok":
+        res.oracle_fail(f"a distance matrix with valid entries is refused ({cls})", p, signature="C20:dist-refused")
+    else:
+        out = np.asarray(est.distances, dtype=np.float64)
+        want = np.where(valid, a, np.min(a[valid]))
+        if out.shape != a.shape or out.tobytes() != want.tobytes():
+            res.oracle_fail("stored k-NN distances: invalid entries are not replaced by the smallest valid distance "
+                            "(or valid entries changed)", p, detail={"nonfinite_or_nonpositive": int(np.sum(~(np.isfinite(out) & (out > 0))))},
+                            signature=SIG_A3)
+    if ctx["driver"] is not None:
+        o = ctx["driver"].ask(f"vdist {r_} {c_} {bits(a.ravel())}".strip()).split()
+        if o[0] != cls:
+            res.corr_fail(f"distance matrix: model {o[0]}, implementation {cls}", p)
+        elif cls == "ok":
+            if unbits(o[2:]).tobytes() != np.asarray(est.distances, dtype=np.float64).ravel().tobytes():
+                res.corr_fail("distance matrix: sanitised values differ", p)
+
+
+# ------------------------------------------------------------------ 1-D cell states for the time-aware estimator and predictors
+
+_T1D = {}
+
+
+def case_time1d(ctx, res, p):
+    """With the time points given separately a 1-D x is one feature: fit and every predictor method give bitwise the results of
+    the (n, 1) form; without `times` a 1-D x stays refused (it could be one cell or one feature)."""
+    m = mellon()
+    n, seed, method = int(p["n"]), int(p["seed"]), p["method"]
+    rng = np.random.default_rng(seed)
+    x = rng.normal(size=n)
+    t = np.repeat(np.arange(2.0), [n // 2, n - n // 2])
+    q = rng.normal(size=3)
+    res.case(("time1d", n, seed, method), True, {"op": "time1d", "method": method})
+    res.count("time1d:" + method)
+
+    def fitted(form):
+        key = (n, seed, form)
+        if key not in _T1D:
+            est = m.TimeSensitiveDensityEstimator(ls_time=1.0, predictor_with_uncertainty=True, optimizer="advi", n_iter=3)
+            xx = x if form == "1d" else x[:, None]
+            _T1D[key] = impl_outcome(lambda: (np.asarray(est.fit_predict(xx, t), float), est.predict))
+        return _T1D[key]
+
+    c2, o2, e2 = fitted("col")
+    c1, o1, e1 = fitted("1d")
+    if c2 != "ok":
+        res.corr_fail(f"time-sensitive fit on (n,1) data failed ({c2})", p)
+        return
+    if c1 != "ok":
+        res.oracle_fail(f"TimeSensitiveDensityEstimator.fit(x_1d, times) refused one-dimensional cell states ({c1}: {str(e1)[:80]})", p,
+                        signature=SIG_A6)
+        pred1 = None
+    else:
+        pred1 = o1[1]
+        if o1[0].tobytes() != o2[0].tobytes():
+            res.oracle_fail("time-sensitive fit on 1-D x differs from the fit on x[:, None]", p, signature="C20:time-1d-form")
+    for pred, tag in ((o2[1], "fitted on (n,1)"), (pred1, "fitted on 1-D")):
+        if pred is None:
+            continue
+        f = pred if method == "mean" else getattr(pred, method)
+        ca, ra, ea = impl_outcome(lambda: np.asarray(f(q[:, None], 0.5), float))
+        cb, rb, eb = impl_outcome(lambda: np.asarray(f(q, 0.5), float))
+        if ca != "ok":
+            res.corr_fail(f"predictor.{method} refused a well-formed (n,1) query ({ca})", p)
+            continue
+        if cb != "ok":
+            res.oracle_fail(f"time-aware predictor ({tag}).{method}(x_1d, time) refused one-dimensional cell states ({cb}: {str(eb)[:80]})",
+                            p, signature=SIG_A6)
+        elif ra.tobytes() != rb.tobytes():
+            res.oracle_fail(f"predictor.{method}: 1-D query differs from the (n,1) query", p, signature="C20:time-1d-form")
+        cn, _, en = impl_outcome(lambda: f(q))
+        if cn == "ok" or cn.startswith("Internal"):
+            res.oracle_fail(f"predictor.{method}(x_1d) without a time is not refused with ValueError/TypeError ({cn})", p,
+                            signature="C20:time-1d-no-time")
 
 
 # ------------------------------------------------------------------ dispatch
@@ -1087,7 +1462,8 @@ def case_fit(ctx, res, p):
 def run_case(ctx, res, p):
     op = p["op"]
     return {"scalar": case_scalar, "nn": case_nn, "xfrt": case_xfrt, "ensure2d": case_ensure2d, "predict": case_predict,
-            "chol": case_chol, "mle": case_mle, "ctor": case_ctor, "fit": case_fit}[op](ctx, res, p)
+            "chol": case_chol, "mle": case_mle, "ctor": case_ctor, "fit": case_fit, "ctorfit": case_ctorfit,
+            "norm": case_norm, "dist": case_dist, "time1d": case_time1d}[op](ctx, res, p)
 
 
 def witnesses():
@@ -1124,7 +1500,70 @@ def witnesses():
         {"op": "scalar", "validator": "float_or_int", "value": NI(2 ** 63 + 5, "uint64")},
         {"op": "ctor", "args": {"rank": NI(5)}},
         {"op": "ctor", "args": {"rank": A0I("np", 4, "int32")}},
+    ] + h3_witnesses()
+
+
+NORM_TRUE, NORM_LIST = ["B", True], ["L", [["I", "10"], ["I", "10"]]]
+NORM_DICT = ["D", [[F(0.0), ["I", "10"]], [F(1.0), ["I", "10"]]]]
+FAST = {"optimizer": ["S", "adam"], "n_iter": ["I", "3"]}
+FRACTAL = {"d_method": ["S", "fractal"]}
+
+
+def h3_witnesses():
+    """Regression cases of the defects found by hunt H3 (reports/hunt/H3) and repaired in /repo; every one FAILS on the tree
+    without its fix, with the signature given; plus the witness of the one defect left as a known finding (B2)."""
+    inf, nan = float("inf"), float("nan")
+    n, seed = 20, 1
+    dim_given = dict(FAST, ls=F(1.0), d=F(2.0), mu_dens=F(-5.0), initial_value=A("np", np.zeros((2, n))))
+    fit = lambda est, kind, extra=None, **kw: dict({"op": "fit", "estimator": est, "data": kind, "n": n, "seed": seed},
+                                                  **({"extra": extra} if extra else {}), **kw)
+    w = [
+        # A1  validate_float let +-inf through: FunctionEstimator(mu=inf) -> all-NaN fitted values            [SIG_A1]
+        {"op": "scalar", "validator": "float", "value": F(inf)},
+        {"op": "scalar", "validator": "float?", "value": ["S", "-inf"]},
+        {"op": "ctor", "args": {"mu": F(-inf)}},
+        {"op": "ctorfit", "estimator": "function", "param": "mu", "value": F(inf)},
+        {"op": "ctorfit", "estimator": "function", "param": "mu", "value": F(-inf)},
+        # A2  validate_float_or_iterable_numerical let NaN (and d=inf) through                                 [SIG_A2]
+        {"op": "scalar", "validator": "foin?+", "value": F(nan)},
+        {"op": "scalar", "validator": "foin", "value": A("np", nan)},
+        {"op": "scalar", "validator": "foin?+", "value": A("np", [nan])},
+        {"op": "ctor", "args": {"d": F(nan)}},
+        {"op": "ctorfit", "estimator": "density", "param": "d", "value": F(nan), "bypass": True},
+        {"op": "ctorfit", "estimator": "density", "param": "d", "value": F(inf), "bypass": True},
+        {"op": "ctorfit", "estimator": "density", "param": "d", "value": A("np", np.r_[nan, 2.0 * np.ones(n - 1)]), "bypass": True},
+        {"op": "ctorfit", "estimator": "function", "param": "sigma", "value": F(nan)},
+        # A3  DimensionalityEstimator never sanitised the distances of duplicate cells                          [SIG_A3]
+        fit("dimensionality", "dup_one", dict(FAST)),
+        fit("dimensionality", "dup_one", dim_given),
+        {"op": "dist", "rows": 3, "cols": 2, "bits": [fb(v) for v in (0.0, 2.0, 0.0, 3.0, 1.0, 2.0)]},
+        # A4  one duplicate + normalize_per_time_point: "'ls' should be a positive float number"               [SIG_A4]
+        fit("time", "dup_one", {"normalize_per_time_point": NORM_TRUE}),
+        fit("time", "dup_one", {"normalize_per_time_point": NORM_LIST}),
+        fit("time", "dup_one", {"normalize_per_time_point": NORM_DICT}),
+        # A5  d_method="fractal": x and x[:, None] gave different d; several duplicates gave a NaN d         [SIG_A5, SIG_A5N]
+        fit("density", "1d", dict(FRACTAL)),
+        fit("density", "dup_few", dict(FRACTAL)),
+        # A6  1-D cell states with separate time points                                                         [SIG_A6]
+        fit("time", "1d"),
+        {"op": "time1d", "n": n, "seed": seed, "method": "mean"},
+        {"op": "time1d", "n": n, "seed": seed, "method": "gradient"},
+        # B3  normalize_per_time_point=np.bool_(True) / k=0 -> IndexError at fit                               [SIG_B3, SIG_B3K]
+        {"op": "norm", "value": ["NPB", True]},
+        {"op": "norm", "value": ["NPF", fb(1.5)]},
+        fit("time", "clean", {"normalize_per_time_point": ["NPB", True]}),
+        {"op": "scalar", "validator": "k", "value": ["I", "0"]},
+        # seeded change C20-e: the Ridge initial guess was the only place that refused a NaN / inf cell or time point when
+        # nn_distances, landmarks, d (ls, ls_time) are supplied by the caller: refusal or finite results        [SIG_SUPPLIED]
+        fit("density", "nan_cell", supplied=True),
+        fit("density", "inf_cell", supplied=True),
+        fit("time", "nan_cell", supplied=True),
+        fit("time", "nan_time", supplied=True),
+        fit("time", "inf_time", supplied=True),
+        # B2  (known finding, not repaired) Matern predictors return NaN at finite queries with |x| >= 1.34e154   [SIG_MATERN]
+        {"op": "predict", "features": 2, "method": "mean", "x": A("np", [[1e155, 0.0]]), "normalize": ["B", False]},
     ]
+    return w
 
 
 def run(ctx, res):
@@ -1148,7 +1587,69 @@ def run(ctx, res):
             ("function", "dup_some"), ("density", "1d"), ("function", "sparse"), ("time", "clean")]
     for est_name, kind in core:
         run_case(ctx, res, {"op": "fit", "estimator": est_name, "data": kind, "n": 20, "seed": seed_core})
-    res.count("fit:core", len(core))
+    # the H3 family with a fresh seed: duplicates for the DimensionalityEstimator and for the normalised time-sensitive estimator,
+    # fractal d with duplicates / 1-D input, 1-D cell states with times, a non-finite cell with supplied intermediates
+    norm_pick = [NORM_TRUE, NORM_LIST, NORM_DICT, ["NPB", True]][int(rng.integers(4))]
+    core2 = [("dimensionality", str(rng.choice(["dup_one", "dup_some", "dup_few"])), dict(FAST), False),
+             ("time", str(rng.choice(["dup_one", "dup_block", "dup_few"])), {"normalize_per_time_point": norm_pick}, False),
+             ("density", str(rng.choice(["dup_some", "dup_few", "dup_many"])), dict(FRACTAL), False),
+             ("density", str(rng.choice(["1d", "list1d"])), dict(FRACTAL), False),
+             ("time", str(rng.choice(["1d", "list1d"])), {}, False),
+             (str(rng.choice(["density", "time"])), str(rng.choice(["nan_cell", "inf_cell"])), {}, True),
+             ("time", str(rng.choice(["nan_time", "inf_time"])), {}, True)]
+    for est_name, kind, extra, supplied in core2:
+        pl = {"op": "fit", "estimator": est_name, "data": kind, "n": 20, "seed": seed_core}
+        if extra:
+            pl["extra"] = extra
+        if supplied:
+            pl["supplied"] = True
+        run_case(ctx, res, pl)
+    res.count("fit:core", len(core) + len(core2))
+    # 0c. NaN / +-inf for every float constructor parameter of the four estimators, followed by a fit (always run: a sample in the
+    #     quick tier, everything in the thorough tier); scalars, 0-d arrays and one entry of a per-cell vector
+    inf, nan = float("inf"), float("nan")
+    cf = []
+    for est_name, params in FLOAT_PARAMS.items():
+        for param in params:
+            for v in (nan, inf, -inf):
+                cf.append((est_name, param, F(v), False))
+                if _bypass(est_name, 20) and param not in _bypass(est_name, 20):
+                    cf.append((est_name, param, F(v), True))
+            if param in PER_CELL:
+                for v in (nan, inf):
+                    vec = np.r_[v, 2.0 * np.ones(19)] if param == "d" else np.r_[v, 0.1 * np.ones(19)]
+                    cf.append((est_name, param, A("np", vec), bool(_bypass(est_name, 20)) and param not in _bypass(est_name, 20)))
+                cf.append((est_name, param, A(str(rng.choice(["np", "jax"])), nan), False))
+                cf.append((est_name, param, A("np", [nan]), False))
+    if quick:
+        # construction-time refusals are cheap: run them all; the ones that reach a fit are sampled
+        pick = set(int(i) for i in rng.choice(len(cf), size=min(len(cf), 60), replace=False))
+    else:
+        pick = set(range(len(cf)))
+    for i, (est_name, param, vspec, bypass) in enumerate(cf):
+        if i in pick or est_name == "function" or param in ("mu", "mu_dim", "mu_dens", "d", "sigma"):
+            run_case(ctx, res, {"op": "ctorfit", "estimator": est_name, "param": param, "value": vspec, "bypass": bypass,
+                                "n": 20, "seed": 1})
+    res.count("ctorfit:planned", len(cf))
+    # 0d. the normalisation target of the time-sensitive estimator over the value menu (+ NumPy booleans, dicts)
+    for spec in menu + [["NPB", True], ["NPB", False], NORM_DICT, NORM_LIST, ["D", []], ["T", [["I", "5"], ["I", "6"]]]]:
+        if spec[0] != "SP":       # a sparse matrix is no documented target (bool, list / array of counts, dict) and not modelled
+            run_case(ctx, res, {"op": "norm", "value": spec})
+    for spec in (["NPB", False], ["NI", "1", "int64"], ["NPF", fb(1.0)], A("np", True, "bool"), A("jax", True, "bool"), ["I", "1"], F(1.5)):
+        run_case(ctx, res, {"op": "fit", "estimator": "time", "data": "clean", "n": 20, "seed": 1,
+                            "extra": {"normalize_per_time_point": spec}, "may_refuse": True})
+    # 0e. k-NN distance matrices of the DimensionalityEstimator over the nn patterns
+    for cats in itertools.product(["valid", "zero", "nan", "pinf"], repeat=4):
+        run_case(ctx, res, {"op": "dist", "rows": 2, "cols": 2, "bits": [fb(x) for x in nn_values(rng, cats)]})
+    for _ in range(30 if quick else 300):
+        r_, c_ = int(rng.choice([3, 5, 8])), int(rng.choice([1, 2, 4]))
+        pv = float(rng.choice([0.0, 0.3, 0.8, 1.0]))
+        cats = [("valid" if rng.random() < pv else NN_CATS[1 + int(rng.integers(6))]) for _ in range(r_ * c_)]
+        run_case(ctx, res, {"op": "dist", "rows": r_, "cols": c_, "bits": [fb(x) for x in nn_values(rng, cats)]})
+    # 0f. 1-D cell states through every method of the time-aware predictor
+    for method in ("mean", "covariance", "mean_covariance", "uncertainty", "gradient", "hessian", "hessian_log_determinant",
+                   "time_derivative"):
+        run_case(ctx, res, {"op": "time1d", "n": 20, "seed": 1, "method": method})
     # 1. every scalar validator x the whole menu (exhaustive over the menu)
     for name, _, _ in SCALAR_OPS:
         for spec in menu:
@@ -1207,8 +1708,8 @@ def run(ctx, res):
                     continue
                 run_case(ctx, res, {"op": "predict", "features": f, "method": method, "x": xs, "normalize": ["B", False]})
     # 8. fits on dirty data (time-boxed)
-    kinds = ["clean", "col", "float_of_int", "dup_some", "dup_block", "dup_many", "dup_all", "dup_pairs", "const_col", "const_all", "1d", "list",
-             "list1d", "sparse", "sparse_array", "int", "int32", "f32", "jax", "empty", "nan_cell", "inf_cell"]
+    kinds = ["clean", "col", "float_of_int", "dup_some", "dup_one", "dup_few", "dup_block", "dup_many", "dup_all", "dup_pairs", "const_col",
+             "const_all", "1d", "list", "list1d", "sparse", "sparse_array", "int", "int32", "f32", "jax", "empty", "nan_cell", "inf_cell"]
     plan = []
     seed0 = int(rng.integers(1, 10 ** 6))
     for kind in kinds:
@@ -1217,15 +1718,39 @@ def run(ctx, res):
         plan.append(("function", kind))
     for kind in (kinds if not quick else ["clean", "dup_some", "dup_all", "1d", "sparse", "int", "empty", "list"]):
         plan.append(("time", kind))
-    for kind in (kinds if not quick else ["clean", "dup_some", "1d", "sparse", "const_col"]):
+    for kind in (kinds if not quick else ["clean", "dup_some", "1d", "sparse", "const_col", "dup_many", "dup_pairs"]):
         plan.append(("dimensionality", kind))
+    plan = [(e, k, None, False) for e, k in plan]
+    # variants: normalised time-sensitive estimator, fractal d, supplied intermediates
+    for kind in ["dup_some", "dup_many", "dup_block", "clean", "1d"]:
+        for nz in (NORM_TRUE, NORM_LIST, NORM_DICT):
+            plan.append(("time", kind, {"normalize_per_time_point": nz}, False))
+    for kind in ["clean", "col", "1d", "list1d", "dup_some", "dup_few", "dup_many", "dup_pairs", "sparse"]:
+        plan.append(("density", kind, dict(FRACTAL), False))
+        plan.append(("time", kind, dict(FRACTAL), False))
+    for kind in ["clean", "nan_cell", "inf_cell", "nan_time", "inf_time"]:
+        plan.append(("density", kind, None, True))
+        plan.append(("time", kind, None, True))
+    if quick:
+        # the variants come after the base plan; in the quick tier shuffle them in so that the time box samples all of them
+        order = rng.permutation(len(plan))
+        plan = [plan[int(i)] for i in order]
     rounds = 1 if quick else 6
     done = 0
+    # the always-run sections above use most of the quick budget: the sweep gets a box of its own so that it never starves
+    t1 = time.time()
+    tail = max(left(), 25.0 if quick else 120.0)
+    left = lambda: tail - (time.time() - t1)
     for r in range(rounds):
-        for est_name, kind in plan:
+        for est_name, kind, extra, supplied in plan:
             if left() < (8 if est_name == "dimensionality" else 3):
-                break
-            run_case(ctx, res, {"op": "fit", "estimator": est_name, "data": kind, "n": 20, "seed": seed0 + r})
+                continue
+            pl = {"op": "fit", "estimator": est_name, "data": kind, "n": 20, "seed": seed0 + r}
+            if extra:
+                pl["extra"] = extra
+            if supplied:
+                pl["supplied"] = True
+            run_case(ctx, res, pl)
             done += 1
     res.count("fit:planned", len(plan) * rounds)
     res.count("fit:done", done)
@@ -1235,19 +1760,29 @@ def run(ctx, res):
 CLAIM = {
     "text": "Lean theorems over exact data (extended floats XF, a syntax of Python values with CPython/numpy/jax coercion rules): "
             "validate_nn_distances sanitises (accepted => all outputs finite positive, valid entries unchanged, invalid entries = "
-            "smallest valid) and refuses all-invalid input; every scalar/flag/string/array validator: accepted => postcondition, "
-            "with its refusal table; validate_float_or_int keeps integers (a Python int and a NumPy / JAX integer scalar - NumPy "
+            "smallest valid) and refuses all-invalid input; the k-NN distance matrix of the DimensionalityEstimator goes through the same "
+            "function on its flattening (distances_sanitise); every scalar/flag/string/array validator: accepted => postcondition, "
+            "with its refusal table; validate_float accepts only FINITE numbers unless allow_inf (validate_float_finite, "
+            "validate_float_refuses_inf); validate_float_or_iterable_numerical refuses NaN always and +-inf unless allow_inf "
+            "(foin_post, foin_d_finite, foin_refuses_nan_inf); k >= 1 (k_post); the normalisation target is None / a Python bool / dict / "
+            "sized container, NumPy booleans become Python bools, other scalars and strings are a TypeError (normalize_post); "
+            "validate_float_or_int keeps integers (a Python int and a NumPy / JAX integer scalar - NumPy "
             "scalar object or 0-d integer array of any integer dtype - come back as the Python int of the same value, a float as "
             "that float; integers outside int64, i.e. a uint64 above 2^63-1, are refused; float_or_int_keeps_integers); BaseEstimator/DensityEstimator constructor validation (first refusal wins, unknown option "
-            "strings and wrongly typed flags refused); ensure_2d shapes; feature-count mismatch refused at call time; Cholesky "
+            "strings and wrongly typed flags refused; stored mu finite, stored d finite and non-negative); ensure_2d shapes; feature-count mismatch refused at call time; Cholesky "
             "refusal (pivot <= 0 => ValueError, never a NaN factor); mle well-defined for positive distances. Tied to /repo by "
-            "running the real validators / constructor / predictors / factorisations on the value grammar and comparing outcome "
-            "class and value exactly with the model driver, plus independent numpy oracles and fits of the 4 estimators on dirty data.",
+            "running the real validators / constructors / predictors / factorisations on the value grammar and comparing outcome "
+            "class and value exactly with the model driver, plus independent numpy oracles, NaN / +-inf for every float constructor "
+            "parameter of the four estimators followed by a fit, and fits of the 4 estimators on dirty data.",
     "note": "End-to-end finiteness of fitted values/predictions is a float-range statement: tests only. The defects found earlier "
             "(int overflow in validators, non-string gp_type, 1-D input to DimensionalityEstimator, empty time-sensitive data, "
-            "init_learn_rate=inf, NumPy / JAX integer scalars coerced to float by validate_float_or_int - fix 4604925) are "
+            "init_learn_rate=inf, NumPy / JAX integer scalars coerced to float by validate_float_or_int - fix 4604925) and by hunt H3 "
+            "(A1 mu=+-inf, A2 d / sigma NaN, A3 duplicates in the DimensionalityEstimator, A4 duplicates with normalize_per_time_point, "
+            "A5 fractal d for 1-D input / duplicates, A6 1-D cell states with times, B3 NumPy-bool flag and k=0) are "
             "repaired in /repo; model and theorems state the repaired behaviour at full strength "
-            "(validators_no_internal, gp_from_string_no_internal, positive_float_finite) and the old witnesses are regression cases.",
+            "(validators_no_internal, gp_from_string_no_internal, positive_float_finite, validate_float_finite, foin_d_finite) and the old "
+            "witnesses are regression cases (h3_witnesses). B2 of hunt H3 (Matern predictors return NaN at finite queries of magnitude "
+            ">= 1.34e154) is left as the known finding C20:matern-overflow-nan-prediction with an always-run witness.",
     "technique": "Lean 4 proof (case analysis over value syntax, list induction over extended floats) + exhaustive differential "
                  "correspondence over the value grammar + independent oracles + dirty-data fits",
 }
